@@ -173,3 +173,10 @@ def one_context(O):
             "only mean the device output")
 def lookup_two_sources(O):
     C04.ctx_get(O, rep())
+
+
+@obligation("C14/glue-stores-nothing", desc="next / handle_io store nothing themselves - neither into the iterator nor into the "
+            "driver's answer (no loop over the answer that rewrites values) - and call nothing but get_row / handle_io / "
+            "into_data_row resp. the driver, set_outputs and extract_output_values")
+def glue_stores_nothing(O):
+    dri.glue_keeps_state(O, rep())
